@@ -42,6 +42,7 @@ func init() {
 		p := fr.i.p
 		v := p.nondetVar(a[0].(string), smt.Int)
 		p.addPC(p.ctx.Ge(v, p.ctx.IntC64(0)))
+		p.markNonNeg(v)
 		return p.newBig(v)
 	})
 	reg("NondetBool", func(fr *frame, a []value) value {
